@@ -22,7 +22,10 @@ N(k, n) == IF Batch(k) THEN n ELSE 1
 \* per-entry sites (position matters) and the fault kinds that make sense there
 EntSites(k) ==
     {<<"fetcher", "error">>, <<"checker", "error">>, <<"unlocker.account", "error">>, <<"unlocker.account", "false">>,
-     <<"isunlocked", "error">>, <<"sign.enter", "error">>, <<"hash", "len31">>}
+     <<"isunlocked", "error">>, <<"sign.enter", "error">>, <<"hash", "len31">>, <<"hash", "len33">>}
+    \* hashing must also fail when BOTH fields of a generic request have the wrong size and only their sum is right (the data root 4
+    \* bytes long and the domain 4 short, and the other way round)
+    \cup (IF k \in {"gen", "multi"} THEN {<<"hash", "shift4">>, <<"hash", "shift-4">>} ELSE {})
     \cup (IF k = "atts" THEN {<<"rules.atts.pos", "unknown">>, <<"rules.atts.pos", "failed">>, <<"rules.atts.pos", "denied">>,
                               <<"rules.atts", "short">>} ELSE {})
     \cup (IF k = "multi" THEN {<<"rules.sign", "unknown">>, <<"rules.sign", "failed">>, <<"rules.sign", "denied">>} ELSE {})
